@@ -193,9 +193,15 @@ func parserScenario(x *explore.X, maxCuts int, stallMode bool) {
 	// segmentation
 	var cuts []int
 	stallAt := -1
+	trickle := false
 	if stallMode {
 		stallAt = x.ChooseFree("stall-after", len(hc.raw)) // the sender goes silent after that many bytes
 		stream = stream[:stallAt]
+		// the bytes before the stall may arrive in two parts 0.6 time-outs apart: the limit is on the whole header, from
+		// accept, not on the gaps between its pieces
+		if stallAt >= 2 && x.ChooseFree("prefix-delivered-in-two-parts-0.6-timeouts-apart", 2) == 1 {
+			trickle = true
+		}
 	} else {
 		mode := x.Choose("segmentation", 3) // 0 whole, 1 cut positions, 2 byte-wise
 		switch mode {
@@ -268,6 +274,11 @@ func parserScenario(x *explore.X, maxCuts int, stallMode bool) {
 	}()
 	t0 := time.Now()
 	prev := 0
+	if trickle {
+		peer.Write(stream[:stallAt/2])
+		world.Settle(headerTO * 6 / 10)
+		prev = stallAt / 2
+	}
 	for _, c := range append(cuts, len(stream)) {
 		if c > prev {
 			peer.Write(stream[prev:c])
@@ -280,7 +291,7 @@ func parserScenario(x *explore.X, maxCuts int, stallMode bool) {
 	x.Check()
 	if stallMode {
 		// the sender stalls inside the header: the connection must fail at the header timeout, not before, not later
-		world.Settle(headerTO - time.Millisecond)
+		world.Settle(headerTO - time.Millisecond - time.Since(t0))
 		if _, _, got, _, err := res.snapshot(); got || err != nil {
 			if hc.exp.v == valid && stallAt < len(hc.raw) {
 				x.Failf("stall/decided-before-timeout", "%s stalled after %d bytes: the connection was decided (addr known=%v err=%v) %v after accept, before the header timeout", hc.name, stallAt, got, err, time.Since(t0))
@@ -547,7 +558,7 @@ func proxyScenario(x *explore.X) {
 
 func TestC08(t *testing.T) {
 	s := explore.NewSuite(t, "C08", "model_checking",
-		"(parser) every header of a 70+ case alphabet (v1 TCP4/TCP6 with minimal..maximal addresses and ports, UNKNOWN bare and 107-byte, over-long lines, bad ports/addresses/signature; v2 every command nibble class x family/protocol byte x lengths 0 / exact / +TLV / 2048 / 2049, wrong version, wrong signature, non-header prefixes) x payload(4) x EVERY segmentation into 2 (quick) / 3 (thorough) segments at all cut positions plus byte-wise delivery, through the real proxyproto.Listener (with connfu) on the simulated network; (stall) every header x EVERY stall offset inside the header with the virtual clock moved to timeout-1ms / +1ms; (several) 2-3 connections with v2/v1 IPv6 and IPv4 headers (with and without TLVs) accepted by one listener and all kept open, addresses and payload of each re-read after the others were parsed, in both orders; (proxy) every header through the complete proxy with a PROXY-protocol listener: X-Forwarded-For at the origin, then a well-formed probe client; an independent grammar of the PROXY protocol specification classifies each header as valid / invalid / receiver's choice and gives the addresses; states = quiescent states after each delivered segment")
+		"(parser) every header of a 70+ case alphabet (v1 TCP4/TCP6 with minimal..maximal addresses and ports, UNKNOWN bare and 107-byte, over-long lines, bad ports/addresses/signature; v2 every command nibble class x family/protocol byte x lengths 0 / exact / +TLV / 2048 / 2049, wrong version, wrong signature, non-header prefixes) x payload(4) x EVERY segmentation into 2 (quick) / 3 (thorough) segments at all cut positions plus byte-wise delivery, through the real proxyproto.Listener (with connfu) on the simulated network; (stall) every header x EVERY stall offset inside the header with the virtual clock moved to timeout-1ms / +1ms, the bytes before the stall delivered at once or in two parts 0.6 time-outs apart; (several) 2-3 connections with v2/v1 IPv6 and IPv4 headers (with and without TLVs) accepted by one listener and all kept open, addresses and payload of each re-read after the others were parsed, in both orders; (proxy) every header through the complete proxy with a PROXY-protocol listener: X-Forwarded-For at the origin, then a well-formed probe client; an independent grammar of the PROXY protocol specification classifies each header as valid / invalid / receiver's choice and gives the addresses; states = quiescent states after each delivered segment")
 	s.Assume = []string{"the reference grammar follows haproxy's proxy-protocol.txt; where the specification leaves the choice to the receiver both outcomes are allowed but an accepted connection must report the socket's own addresses", "(concurrent-callers) sync.Mutex/atomic.Bool and the go statement of proxyproto/net.go are redirected at build time to a cooperative scheduler: all interleavings of 2-3 callers of Read/Write/RemoteAddr/LocalAddr on one connection with at most 2 preemptions (2 callers quick, 2-3 callers thorough); unsynchronised accesses are outside this technique (race detector territory)"}
 	run := func(f func(x *explore.X)) func(x *explore.X) {
 		return func(x *explore.X) { world.Run(t, x, func() { f(x) }) }
